@@ -461,3 +461,60 @@ Fixpoint wf_tree (e : entry) : bool :=
   | File n _ _ _ => good_name n
   | Dir n es => nodup_names (map ename es) && forallb wf_tree es
   end.
+
+(* does the entry named [n] of the directory [es] at [loc] become a sub-page (a page of its own
+   or a sub-tree)?  [pcopy]: copy_subdir of the parent node, [copy]: of this directory's node *)
+Definition yields_page (proj : list str) (pcopy : option (list str)) (loc : list str)
+           (es : list entry) (copy : list str) (n : str) : bool :=
+  visible n &&
+  match find_entry n es with
+  | Some (Dir _ _ as x) =>
+    negb (in_opt n pcopy) &&
+    match gpt proj (Some copy) (loc ++ [n]) x with RNode _ => true | _ => false end
+  | Some (File _ titled _ _) => is_md n && titled
+  | None => false
+  end.
+
+(* ------------------------------------------------------------------------------------------ *)
+(* removing one page from a node tree (used to state that a page without a title removes
+   exactly itself) *)
+Definition remove_sub (f : str) (n : node) : node :=
+  match n with
+  | Node a b c d e fl subs =>
+    Node a b c d e fl (filter (fun x => negb (str_eqb (n_name x) f)) subs)
+  end.
+Definition map_sub (dn : str) (g : node -> node) (n : node) : node :=
+  match n with
+  | Node a b c d e fl subs =>
+    Node a b c d e fl (map (fun x => if str_eqb (n_name x) dn then g x else x) subs)
+  end.
+(* follow the sub-trees named ds, then remove the sub-page f there *)
+Fixpoint prune (ds : list str) (f : str) : node -> node :=
+  match ds with
+  | [] => remove_sub f
+  | d :: ds' => map_sub d (prune ds' f)
+  end.
+Definition res_map (g : node -> node) (r : res) : res :=
+  match r with RNode n => RNode (g n) | _ => r end.
+
+(* a directory tree with a hole: the enclosing directories, outermost first *)
+Inductive frame := Frame (dname : str) (before after : list entry).
+Fixpoint plug (ctx : list frame) (e : entry) : entry :=
+  match ctx with
+  | [] => e
+  | Frame d b a :: ctx' => Dir d (b ++ plug ctx' e :: a)
+  end.
+Definition hole_name (ctx : list frame) (nm : str) : str :=
+  match ctx with [] => nm | Frame d _ _ :: _ => d end.
+(* the names leading from the outermost directory down to the directory called nm *)
+Fixpoint ctx_path (ctx : list frame) (nm : str) : list str :=
+  match ctx with
+  | [] => []
+  | Frame _ _ _ :: ctx' => hole_name ctx' nm :: ctx_path ctx' nm
+  end.
+(* the hole is the first entry of its name in each enclosing directory *)
+Fixpoint ctx_ok (ctx : list frame) (nm : str) : bool :=
+  match ctx with
+  | [] => true
+  | Frame _ b _ :: ctx' => negb (str_in (hole_name ctx' nm) (map ename b)) && ctx_ok ctx' nm
+  end.
